@@ -15,7 +15,8 @@ TRUSTED = ["CPython 3.12", "z3 5.1.0 / cvc5 1.0.3", "pyvc encoding of Python sem
            "the ordering clause is NOT assumed (arbitrary permutation: over-approximates sorted()); its key function raises nothing",
            "external (contracts.mapping_c EXTERNALS) collections.defaultdict(set): empty dict whose missing-key read inserts set()",
            "attr:BasePair3D.is_canonical (PURE_ATTRS): a pure function of the frozen record value; nothing else about it is used"]
-ASSUMPTIONS = ["pair lists name nucleotide residues; self pairs are not generated (requires no_self_pairs: an entry whose two residues both resolve never resolves them to the same 3D residue); Saenger labels are a function of (bases, class) within one list",
+ASSUMPTIONS = ["each residue is named the same way (label+auth, label only, or auth only) throughout one pair list; orientation of a pair (which residue is first, hence which of cWH / cHW labels its row) follows the order of the names the list carries",
+               "pair lists name nucleotide residues; self pairs are not generated (requires no_self_pairs: an entry whose two residues both resolve never resolves them to the same 3D residue); Saenger labels are a function of (bases, class) within one list",
                "structure: the nucleotide residues of Structure3D.residues are pairwise different values (==), i.e. usable as distinct dict keys (requires distinct_nucleotides)",
                "structure: every residue has a label or an auth identifier (Residue.number is an int, Residue.chain a str, never None)",
                "frozen dataclasses Residue3D / Residue / ResidueLabel / ResidueAuth and the Enum LeontisWesthof are modelled as interned values: == is identity of the value, every attribute (incl. the properties chain/number/icode, the cached_property is_nucleotide, LeontisWesthof.reverse) is a pure function of the value; the converse 'equal modelled fields => equal value' is not assumed",
